@@ -27,6 +27,15 @@ PROPS = {
         "note": "Trusted: the harness's map model and the verif-tag accessors (rotate, single compaction of a chosen kind, GC of a chosen file) which call the engine's own code paths; forced compactions mimic the picker's preconditions.",
         "design_ref": "7/C01", "assumptions": E1_ASSUME,
     },
+    "C02": {
+        "engine": "dbsim", "level": "exploration", "budget": {"quick": 25, "thorough": 600},
+        "title": "Versioned reads return the newest entry at or below the requested version",
+        "technique": "deterministic simulation: seeded histories of versioned writes/deletes (in-order, repeated and out-of-order versions) interleaved with maintenance, checked against a multi-version reference model at every probe version",
+        "rule": "case = seeded list of SetVersionedEntry/DeleteVersionedEntry + maintenance steps + configuration swarm; after every step GetVersionedEntry is probed for every (cf,key) at versions {1..7, 2^64-2, 2^64-1} and compared with the model (most recent write among those with the greatest version <= v); distinct = distinct event-trace hash; non-trivial = at least one flush or clean reopen happened",
+        "level_text": "Seeded search over versioned-write histories, maintenance schedules and configurations with a multi-version reference model; sampling is the right level for a property quantified over all histories and schedules.",
+        "note": "Trusted: the multi-version model, the verif-tag accessors; tombstones are compared as entries carrying the delete bit (what the API returns).",
+        "design_ref": "7/C02", "assumptions": E1_ASSUME,
+    },
 }
 
 # Merge per-engine registries (props_<engine>.py).
